@@ -568,7 +568,7 @@ impl Run {
                 call["rcel"] = json!(is_bech32_with_prefix(&rcv, "celestia"));
                 let ch = jstr(&call, "channel");
                 let msg = json!({"spend_funds": {"amount": {"denom": self.ad(&jstr(&call, "den")), "amount": ju(&call, "amt").to_string()},
-                    "receiver": rcv, "channel_id": if ch.is_empty() { Value::Null } else { json!(ch) }}});
+                    "receiver": rcv, "channel_id": if ch.is_empty() { Value::Null } else if ch == "<empty>" { json!("") } else { json!(ch) }}});
                 self.w.tx_treasury("execute", &sender, &msg)
             }
             "t_update_config" => {
